@@ -317,10 +317,12 @@ elif family == 'shekel4':
 else:
     from iOpt.problems.stronginC3 import StronginC3 as P; p = P()
 series = %(series)r
+def same(q):
+    return (list(q) == list(fn)) if isinstance(q, (list, tuple)) else q == fn
 if series:
-    keep = [P(*q) if isinstance(q, (tuple, list)) else P(q) for q in series]     # the other members of the series stay alive
-    p = [o for q, o in zip(series, keep) if q == (tuple(fn) if isinstance(fn, (list, tuple)) else fn) or list(q) == list(fn) if isinstance(q, (tuple, list)) else q == fn]
-    p = p[0] if p else (P(*fn) if isinstance(fn, (tuple, list)) else P(fn))
+    keep = [(q, P(*q) if isinstance(q, (list, tuple)) else P(q)) for q in series]     # the other members of the series stay alive
+    m_ = [o for q, o in keep if same(q)]
+    p = m_[0] if m_ else (P(*fn) if isinstance(fn, (list, tuple)) else P(fn))
 ko = p.knownOptimum[0]
 xs = [float(v) for v in ko.point.floatVariables]; fs = float(ko.functionValues[0].value)
 lo = [float(v) for v in p.lowerBoundOfFloatVariables]; up = [float(v) for v in p.upperBoundOfFloatVariables]
@@ -384,7 +386,7 @@ def main():
     rnd = random.Random(run.seed)
     jobs = []
     hills = list(range(1000))            # 0.03 s per instance: every member in both tiers
-    sheks = sorted(rnd.sample(range(1000), 120)) if quick else list(range(1000))
+    sheks = sorted(rnd.sample(range(1000), 80)) if quick else list(range(1000))
     for fn in hills:
         jobs.append((hill_job, (fn,)))
     for fn in sheks:
@@ -408,7 +410,7 @@ def main():
         jobs.append((ground_series_job, ('shekel', list(range(a, a + 250)))))
     jobs.append((ground_series_job, ('shekel4', [1, 2, 3])))
     for a in range(1, 101, 10):
-        jobs.append((scan_job, ('grishagin', list(range(a, a + 10)), 60 if quick else 140)))
+        jobs.append((scan_job, ('grishagin', list(range(a, a + 10)), 40 if quick else 140)))
     jobs.append((scan_job, ('shekel4', [1, 2, 3], 9 if quick else 14)))
     jobs.append((ground_job, ('stronginC3', 0)))
     run.bound(instances='Hill %d (all), Shekel %d (seeded sample in the quick tier, all 1000 in the thorough tier), Rastrigin and XSquared N = 1..5, '
